@@ -386,7 +386,8 @@ impl Scenario for UnbondLc {
             c01_step(po, g, a, out, qo, &released_now, cx);
         }
         if self.arm.c06 && !released_now.is_empty() {
-            c06_release(po, a, qo, &released_now, cx);
+            let dirty = g.rogue || released_now.iter().any(|b| qo.hist(*b).map(|h| g.dirty_times.contains(&(h.time + po.params.unbonding_period))).unwrap_or(false));
+            c06_release(po, a, qo, &released_now, dirty, cx);
         }
         if self.arm.c08 {
             c08_step(pre, po, a, out, qo, cx);
@@ -717,12 +718,22 @@ pub fn classify_err(e: &str) -> String {
 // =============================================================================================
 // C06 (release part): loss on unbonding stake is spread over the group in proportion
 
-fn c06_release(po: &HubObs, a: &Action, qo: &HubObs, released_now: &[u64], cx: &mut Cx) {
+fn c06_release(po: &HubObs, a: &Action, qo: &HubObs, released_now: &[u64], dirty: bool, cx: &mut Cx) {
+    let arrived = po.hub_usei.saturating_sub(po.state.prev_hub_balance.u128());
+    {
+        // a loss may only come from slashing: without slashing (and without rogue coins) exactly the nominal value arrives
+        let nominal: u128 = released_now.iter().filter_map(|b| po.hist(*b)).map(|h| mul_dec(h.bsei_amount.u128(), h.bsei_withdraw_rate) + mul_dec(h.stsei_amount.u128(), h.stsei_withdraw_rate)).sum();
+        if !dirty {
+            cx.count("c06_release_without_slashing");
+            if arrived != nominal {
+                cx.viol("C06.loss_only_from_slashing", "a release group was valued against coins that differ from its nominal value although nothing was slashed (released before its coins arrived?)", format!("{}: batches {:?} nominal {} arrived {}", a.label, released_now, nominal, arrived));
+            }
+        }
+    }
     if released_now.len() < 2 {
         cx.count("c06_release_single_batch");
         return;
     }
-    let arrived = po.hub_usei.saturating_sub(po.state.prev_hub_balance.u128());
     let mut nominal: Vec<(u64, u128, u128)> = vec![];
     for b in released_now {
         if let Some(h) = po.hist(*b) {
@@ -787,7 +798,9 @@ fn c07_state(c: &Chain, o: &HubObs, g: &G, cx: &mut Cx) {
     // UnbondRequests of every known address equals the reference ledger
     for (u, reqs) in &o.requests {
         let exp: Vec<(u64, u128, u128)> = g.ledger.iter().filter(|((x, _), v)| x == u && (v.0 > 0 || v.1 > 0)).map(|((_, b), v)| (*b, v.0, v.1)).collect();
-        let got: Vec<(u64, u128, u128)> = reqs.iter().filter(|r| r.1 > 0 || r.2 > 0).cloned().collect();
+        // the query lists a user's claims in storage-key order (decimal strings: 1, 10, 2, ...); order is not part of the property
+        let mut got: Vec<(u64, u128, u128)> = reqs.iter().filter(|r| r.1 > 0 || r.2 > 0).cloned().collect();
+        got.sort();
         if exp != got {
             cx.viol("C07.ledger", "UnbondRequests differs from the reference claim ledger", format!("{}: query {:?} ledger {:?}", u, got, exp));
         }
